@@ -52,6 +52,7 @@ type G struct {
 	wasBlocked  bool
 	EverBlocked bool
 	Panic       any
+	Ops         int // hooked synchronisation operations performed so far
 }
 
 type Sched struct {
@@ -164,6 +165,9 @@ func (s *Sched) handle(kind vh.Kind, obj any) {
 		s.mu.Unlock()
 		s.signal()
 		return
+	}
+	if kind != vh.Enter {
+		g.Ops++
 	}
 	g.kind, g.obj, g.state, g.phase, g.commit, g.wasBlocked = kind, obj, parked, 0, nil, false
 	if (kind == vh.Send || kind == vh.Recv) && !s.split {
